@@ -175,6 +175,98 @@ def abf_chunk(args):
     return out
 
 
+# ---------------------------------------------------------------------------- multiple-walker metadynamics
+MW_U, MW_R = 2, 4
+
+
+def mw_config(w):
+    return ("colvar {\n  name z\n  width 0.5\n  lowerBoundary -4\n  upperBoundary 4\n  distanceZ {\n    main { atomNumbers 1 }\n    ref { dummyAtom (0,0,0) }\n  }\n}\n"
+            "metadynamics {\n  name m\n  colvars z\n  hillWeight 1.0\n  hillWidth 1.6986436005760382\n  newHillFrequency 1\n  multipleReplicas on\n  replicaID w%d\n"
+            "  replicasRegistry reg.txt\n  replicaUpdateFrequency %d\n}\n") % (w, MW_U)
+
+
+def hill_records(text):
+    """(steps of the complete hill records, whether an incomplete record follows)."""
+    recs = [int(m.group(1)) for m in re.finditer(r"hill\s*\{\s*step\s+(\d+)[^}]*\}", text)]
+    rest = text[text.rfind("}") + 1:] if "}" in text else text
+    return recs, bool(rest.strip())
+
+
+def record_mw(seed, wd, nsteps, cut_mode):
+    """Two real walkers interleaved at random; before each step the reader's view of the peer is refreshed with a prefix of the
+    peer's files (cut_mode: 'none' full copy, 'record' prefix ending at a record boundary, 'byte' prefix ending anywhere)."""
+    rng = random.Random(seed)
+    events = [{"e": "Reset"}]
+    ds = []
+    try:
+        for w in (1, 2):
+            d = os.path.join(wd, "w%d" % w)
+            os.makedirs(os.path.join(d, "view"), exist_ok=True)
+            ds.append(vlib.Drv(cwd=d, timeout=30))
+        for i, d in enumerate(ds):
+            d.cmd(op="new", natoms=2, prefix="o", restartFreq=MW_R, trajFreq=0)
+            r = d.cmd(op="config", text=mw_config(i + 1))
+            if r.get("rc") != 0:
+                raise vlib.MachineryError("C14 metadynamics config rejected: %s" % r.get("errtext"))
+        pos = {1: [], 2: []}
+        for k in range(nsteps):
+            w = rng.choice([1, 2])
+            v = 3 - w
+            rd, pd = os.path.join(wd, "w%d" % w), os.path.join(wd, "w%d" % v)
+            view = os.path.join(rd, "view")
+            # the peer's snapshot as it is on disk, and a prefix of its hills file
+            st_src = os.path.join(pd, "o.colvars.m.w%d.state" % v)
+            hl_src = os.path.join(pd, "o.colvars.m.w%d.hills" % v)
+            shutil.copy(st_src, os.path.join(view, "w%d.state" % v))
+            full = open(hl_src).read() if os.path.exists(hl_src) else ""
+            cut = len(full)
+            if cut_mode != "none" and full and rng.random() < 0.5:
+                if cut_mode == "record":
+                    ends = [m.end() for m in re.finditer(r"\}\s*\n", full)]
+                    cut = rng.choice([0] + ends)
+                else:
+                    cut = rng.randrange(len(full) + 1)
+            open(os.path.join(view, "w%d.hills" % v), "w").write(full[:cut])
+            recs, partial = hill_records(full[:cut])
+            m = re.search(r"\n\s*step\s+(\d+)", open(st_src).read())
+            sstep = int(m.group(1)) if m else 0
+            open(os.path.join(view, "w%d.files.txt" % v), "w").write("stateFile %s\nhillsFile %s\n" % (os.path.join(view, "w%d.state" % v), os.path.join(view, "w%d.hills" % v)))
+            reg = open(os.path.join(rd, "reg.txt")).read()
+            if ("w%d " % v) not in reg:
+                open(os.path.join(rd, "reg.txt"), "a").write("w%d %s\n" % (v, os.path.join(view, "w%d.files.txt" % v)))
+            x = rng.randint(-2, 2)
+            pos[w].append(x)
+            d = ds[w - 1]
+            d.cmd(op="log")
+            r = d.cmd(op="step", pos=[[0, 0, 0.25 + 0.5 * x], [0, 0, 0]])
+            if r.get("op") != "step":
+                events.append({"e": "Died", "w": w})
+                break
+            lg = d.cmd(op="log")["text"]
+            recv = [int(t) for t in re.findall(r'received a hill from replica "w%d" at step (\d+)' % v, lg)]
+            resync = ('reading the state of replica "w%d"' % v) in lg
+            E = r["E"] * 65536.0
+            events.append({"e": "Step", "w": w, "t": r["it"], "x": x, "view": {"n": len(recs), "recs": recs, "partial": partial, "sstep": sstep},
+                           "recv": recv, "resync": resync, "E": int(round(E)) if abs(E - round(E)) < 1e-6 else "offlattice %r" % E,
+                           "pos": [pos[1] + [0], pos[2] + [0]], "err": r.get("rc", 0)})
+    finally:
+        for d in ds:
+            d.close()
+    return events
+
+
+def mw_chunk(args):
+    seeds, wd, nsteps = args
+    out = []
+    for sd, mode in seeds:
+        w = os.path.join(wd, "mw%d" % sd)
+        try:
+            out.append((sd, mode, record_mw(sd, w, nsteps, mode)))
+        finally:
+            shutil.rmtree(w, ignore_errors=True)
+    return out
+
+
 def run(ctx):
     ctx.rule = ("behaviours = interleavings of engine steps of 2-3 walkers (each presenting a bin and receiving a force), blocking exchanges every 2 steps, restarts of a walker at an exchange boundary; "
                 "non-trivial = a behaviour in which at least one exchange completed and some walker holds samples of another")
@@ -230,6 +322,46 @@ def run(ctx):
                 nbad += 1
                 ctx.violation("abf:" + info["key"], "shared ABF, behaviour %s: %s" % (json.dumps(b["hist"])[:600], info["what"]), {"behaviour": b})
     vlib.log("replayed %d shared-ABF behaviours: %d differ from the mechanism, %d show a named deviation" % (len(behs), nbad, ndev))
+    run_meta(ctx)
+
+
+def run_meta(ctx):
+    quick = ctx.quick()
+    r = vlib.tlc("MCMetaWalkers", "MCMetaWalkers.cfg" if quick else "MCMetaWalkers_thorough.cfg", workers=16, timeout=3000, xmx="24g")
+    ctx.add_tlc(r, "MCMetaWalkers properties (outside named deviations)")
+    if r.violation:
+        ctx.violation("meta:model:" + r.violation, "MetaWalkers.tla violates %s" % r.violation, {"tlc": vlib.counterexample(r)})
+        return
+    full = vlib.tlc("MCMetaWalkers", "MCMetaWalkers_full.cfg", workers=16, timeout=900)
+    ctx.add_tlc(full, "MCMetaWalkers full property")
+    if full.violation:
+        ctx.notes.append("MetaWalkers.tla: completeness after every exchange is violated by the mechanism (named deviations); TLC's shortest history: %s" % vlib.counterexample(full)[-500:])
+    wd = os.path.join(ctx.workdir, "mw")
+    os.makedirs(wd, exist_ok=True)
+    n = 12 if quick else 150
+    seeds = [(ctx.seed * 1000 + i, ("none", "record", "byte")[i % 3]) for i in range(n)]
+    chunks = [(seeds[i::12], wd, 60 if quick else 120) for i in range(12) if seeds[i::12]]
+    events = []
+    nexec = 0
+    for chunk in vlib.parallel_map(mw_chunk, chunks, 12):
+        for sd, mode, ev in chunk:
+            nexec += 1
+            if any(e["e"] == "Died" for e in ev):
+                ctx.violation("meta:crash", "a walker process died (seed %d, cut mode %s)" % (sd, mode), {"seed": sd, "mode": mode})
+                continue
+            events += ev
+            ctx.nontriv(["mw", sd, mode])
+    res = vlib.validate_trace(ctx, "MetaWalkersTrace", "MetaWalkersTrace.cfg", events, "recorded multiple-walker metadynamics executions", nexec=nexec, key="meta:trace-rejected")
+    if res is not None and getattr(res, "accepted", False):
+        seen = set()
+        for m in re.finditer(r'<<"MISSING", (\d+), \{([^}]*)\}, <<(.*?)>>>>', res.out):
+            names = [x.strip().strip('"') for x in m.group(2).split(",") if x.strip()]
+            for nm in names or ["unnamed"]:
+                if nm not in seen:
+                    seen.add(nm)
+                    ev = events[int(m.group(1)) - 2] if int(m.group(1)) >= 2 else {}
+                    ctx.violation("meta:" + nm, "multiple-walker metadynamics: after an exchange that saw everything the peer had published, walker %s at step %s still lacks the peer's hills %s (recorded execution, event %s)" % (
+                        ev.get("w"), ev.get("t"), m.group(3), m.group(1)), {"event": ev})
 
 
 def replay(ctx, path):
